@@ -11,6 +11,7 @@ import (
 	"time"
 
 	"github.com/cube2222/octosql/execution"
+	"github.com/cube2222/octosql/logical"
 	"github.com/cube2222/octosql/octosql"
 	"github.com/cube2222/octosql/physical"
 	"github.com/cube2222/octosql/table_valued_functions"
@@ -86,7 +87,95 @@ func encodeMsgsExact(ms []Msg) string {
 	return strings.Join(parts, " ; ")
 }
 
+// schema <want> <noRetractions 0|1> <k> (<name> <T|I|S|N|A>)*k
+// OutputSchema on a source with these fields (T = Time, N = Null|Time, I Int, S String, A Any), time_field => <want>;
+// then Materialize + Run over one record whose column i holds the instant 1000+i: the event time of the
+// forwarded record tells which column the running node uses. Output: `ok <TimeField> <used column> <#fields> <noRetractions>`
+// or `err:typecheck`.
+func driveC20Schema(toks []string) string {
+	want := toks[1]
+	noRetr := toks[2] == "1"
+	k, _ := strconv.Atoi(toks[3])
+	fields := make([]physical.SchemaField, k)
+	mapping := map[string]string{}
+	vals := make([]octosql.Value, k)
+	for i := 0; i < k; i++ {
+		name, ty := toks[4+2*i], toks[5+2*i]
+		var t octosql.Type
+		switch ty {
+		case "T":
+			t = octosql.Time
+		case "N":
+			t = octosql.TypeSum(octosql.Null, octosql.Time)
+		case "I":
+			t = octosql.Int
+		case "S":
+			t = octosql.String
+		default:
+			t = octosql.Any
+		}
+		fields[i] = physical.SchemaField{Name: name, Type: t}
+		mapping[name] = name
+		vals[i] = octosql.NewTime(time.Unix(0, int64(1000+i)).UTC())
+	}
+	src := physical.Node{
+		Schema:   physical.NewSchema(fields, -1, physical.WithNoRetractions(noRetr)),
+		NodeType: physical.NodeTypeDatasource,
+		Datasource: &physical.Datasource{Name: "script", Alias: "script", VariableMapping: mapping,
+			DatasourceImplementation: &scriptDatasource{node: &ScriptNode{Msgs: []Msg{{Rec: execution.Record{Values: vals}}}, FailAt: -1}}},
+	}
+	args := map[string]physical.TableValuedFunctionArgument{
+		"source": {TableValuedFunctionArgumentType: physical.TableValuedFunctionArgumentTypeTable,
+			Table: &physical.TableValuedFunctionArgumentTable{Table: src}},
+		"max_diff": {TableValuedFunctionArgumentType: physical.TableValuedFunctionArgumentTypeExpression,
+			Expression: &physical.TableValuedFunctionArgumentExpression{Expression: durConst(0)}},
+		"time_field": {TableValuedFunctionArgumentType: physical.TableValuedFunctionArgumentTypeDescriptor,
+			Descriptor: &physical.TableValuedFunctionArgumentDescriptor{Descriptor: want}},
+	}
+	targs := map[string]logical.TableValuedFunctionTypecheckedArgument{}
+	for name, a := range args {
+		targs[name] = logical.TableValuedFunctionTypecheckedArgument{Argument: a}
+	}
+	targs["source"] = logical.TableValuedFunctionTypecheckedArgument{Mapping: mapping, Argument: args["source"]}
+	ctx := context.Background()
+	d := table_valued_functions.MaxDiffWatermark.Descriptors[0]
+	schema, _, err := d.OutputSchema(ctx, physical.Environment{}, logical.Environment{}, targs)
+	if err != nil {
+		return "err:typecheck"
+	}
+	node, err := d.Materialize(ctx, physical.Environment{}, args)
+	if err != nil {
+		return ErrClass(err)
+	}
+	out, err := Collect(execution.ExecutionContext{Context: ctx}, node)
+	if err != nil {
+		return ErrClass(err)
+	}
+	used := int64(-1)
+	if len(out) > 0 && !out[0].IsWM {
+		used = out[0].Rec.EventTime.UnixNano() - 1000
+	}
+	nr := 0
+	if schema.NoRetractions {
+		nr = 1
+	}
+	return fmt.Sprintf("ok %d %d %d %d", schema.TimeField, used, len(schema.Fields), nr)
+}
+
 func driveC20(toks []string) string {
+	if toks[0] == "schema" {
+		return driveC20Schema(toks)
+	}
+	failAt := -1
+	if toks[0] == "fail" {
+		// fail <k> <maxDiff> <res> <idx> <stream>: the source fails instead of delivering message k
+		k, err := strconv.Atoi(toks[1])
+		if err != nil {
+			return "bad-op"
+		}
+		failAt = k
+		toks = append([]string{"run"}, toks[2:]...)
+	}
 	if toks[0] != "run" {
 		return "bad-op"
 	}
@@ -102,7 +191,7 @@ func driveC20(toks []string) string {
 			arity = len(m.Rec.Values)
 		}
 	}
-	src := scriptPhysicalNode(&ScriptNode{Msgs: msgs, FailAt: -1}, arity, idx)
+	src := scriptPhysicalNode(&ScriptNode{Msgs: msgs, FailAt: failAt}, arity, idx)
 	args := map[string]physical.TableValuedFunctionArgument{
 		"source": {TableValuedFunctionArgumentType: physical.TableValuedFunctionArgumentTypeTable,
 			Table: &physical.TableValuedFunctionArgumentTable{Table: src}},
@@ -126,13 +215,17 @@ func driveC20(toks []string) string {
 		return ErrClass(err)
 	}
 	out, err := Collect(execution.ExecutionContext{Context: ctx, VariableContext: nil}, node)
-	if err != nil {
+	if err != nil && failAt < 0 {
 		return ErrClass(err)
 	}
-	if len(out) == 0 {
-		return "ok"
+	tag := ErrClass(err)
+	if failAt >= 0 && err != nil && tag == "err:runtime" {
+		return tag // not the injected error: e.g. the resolution was rejected
 	}
-	return "ok " + encodeMsgsExact(out)
+	if len(out) == 0 {
+		return tag
+	}
+	return tag + " " + encodeMsgsExact(out)
 }
 
 // ---- generator
@@ -257,7 +350,47 @@ func c20Case(g *Gen, w *bufio.Writer, maxLen int) {
 	if useDefault {
 		rs = "-"
 	}
+	if g.Chance(1, 12) {
+		fmt.Fprintf(w, "fail %d %d %s %d %s\n", g.Intn(len(msgs)+1), md, rs, idx, EncodeMsgs(msgs))
+		return
+	}
 	fmt.Fprintf(w, "run %d %s %d %s\n", md, rs, idx, EncodeMsgs(msgs))
+}
+
+// schema ops: all field lists of length <= 3 over 2 names x 3 types, for both wanted names (exhaustive), plus
+// longer random ones
+func genC20Schema(g *Gen, tier string, w *bufio.Writer) {
+	names := []string{"a", "b"}
+	types := []string{"T", "I", "N"}
+	var rec func(prefix []string, depth int)
+	rec = func(prefix []string, depth int) {
+		for _, want := range []string{"a", "b", "zz"} {
+			fmt.Fprintf(w, "schema %s %d %d %s\n", want, depth%2, depth, strings.Join(prefix, " "))
+		}
+		if depth == 3 {
+			return
+		}
+		for _, n := range names {
+			for _, t := range types {
+				rec(append(append([]string(nil), prefix...), n, t), depth+1)
+			}
+		}
+	}
+	rec(nil, 0)
+	n := 300
+	if tier == "thorough" {
+		n = 5000
+	}
+	allNames := []string{"a", "b", "c", "d", "time", "t"}
+	allTypes := []string{"T", "I", "S", "N", "A", "T"}
+	for i := 0; i < n; i++ {
+		k := g.Intn(7)
+		var parts []string
+		for j := 0; j < k; j++ {
+			parts = append(parts, Pick(g, allNames), Pick(g, allTypes))
+		}
+		fmt.Fprintf(w, "schema %s %d %d %s\n", Pick(g, allNames), g.Intn(2), k, strings.Join(parts, " "))
+	}
 }
 
 func genC20(g *Gen, tier string, w *bufio.Writer) {
@@ -268,6 +401,9 @@ func genC20(g *Gen, tier string, w *bufio.Writer) {
 	fmt.Fprintf(w, "run 0 0 0\n")
 	fmt.Fprintf(w, "run 5 -1000000000 0 %s ; %s\n", t(1500000000), t(2500000000))
 	fmt.Fprintf(w, "run 0 - 0 %s ; %s ; %s\n", t(-1500000000), t(-1200000000), t(-100000000))
+	fmt.Fprintf(w, "run 0 10 0 %s ; W99 ; %s\n", t(5), t(7)) // an upstream watermark must be swallowed
+	fmt.Fprintf(w, "fail 2 0 10 0 %s ; %s ; %s\n", t(5), t(17), t(29))
+	genC20Schema(g, tier, w)
 	// small exhaustive universe: resolution 10, times in [-25,25] step 5 plus off-grid, sequences of length <= 3
 	grid := []int64{-21, -20, -19, -10, -5, -1, 0, 1, 5, 10, 19, 20, 21}
 	mds := []int64{0, 3, 10, -4}
@@ -290,9 +426,9 @@ func genC20(g *Gen, tier string, w *bufio.Writer) {
 			}
 		}
 	}
-	n, maxLen := 6000, 14
+	n, maxLen := 20000, 14
 	if tier == "thorough" {
-		n, maxLen = 150000, 40
+		n, maxLen = 300000, 40
 	}
 	for i := 0; i < n; i++ {
 		c20Case(g, w, maxLen)
